@@ -75,7 +75,7 @@ func runTsgenJob(prog *symgo.Program, inst instance, tier string, workers int, s
 	if timeout == 0 {
 		timeout = 600
 	}
-	res, err := ts.CheckBMC(symgo.BMCOptions{K: K, Pool: pool, Solver: solver, TimeoutMS: timeout * 1000, ProgressB: int(inst.params["progress"])})
+	res, err := ts.CheckBMC(symgo.BMCOptions{K: K, Pool: pool, Solver: solver, TimeoutMS: timeout * 1000, ProgressB: int(inst.params["progress"]), NoBlocked: inst.params["noblocked"] == 1})
 	if err != nil {
 		jr.Problems = append(jr.Problems, symgo.PathResult{Kind: "engine-fault", Msg: err.Error()})
 		return jr
@@ -88,14 +88,18 @@ func runTsgenJob(prog *symgo.Program, inst instance, tier string, workers int, s
 	jr.Extra["relation"] = map[string]any{"thread_types": types, "shared_cells": len(ts.Cells), "cut_points": ncuts, "guarded_transitions": nout}
 	jr.Extra["bmc"] = map[string]any{"K": K, "goroutine_pool": pool, "terms": res.Terms, "solver_vars": res.Vars,
 		"some_schedule_not_quiescent_at_K": res.NotQuiescent, "some_schedule_needs_more_goroutine_slots": res.PoolOverflow,
-		"some_schedule_exceeds_narrow_counter_range": res.RangeExceeded, "threads": res.Threads,
+		"some_schedule_exceeds_narrow_counter_range": res.RangeExceeded, "state_variables_widened_after_range_check": res.Widened, "threads": res.Threads,
 		"partial_order_reduction": "adjacent statically independent steps must be in thread order; halt option keeps prefixes representable",
-		"state_width_bits": 8}
+		"state_width_bits": "8, raised per variable until no schedule leaves the range"}
 	jr.Extra["tsgen_states"] = ncuts
 	jr.Extra["tsgen_transitions"] = nout
 	if res.Unknown {
 		jr.Unknown++
 		jr.Problems = append(jr.Problems, symgo.PathResult{Kind: "unknown", Msg: fmt.Sprintf("solver did not answer the BMC query at K=%d within %ds", K, timeout)})
+	}
+	if res.RangeExceeded && res.Violated == "" && !res.Unknown {
+		jr.Unknown++
+		jr.Problems = append(jr.Problems, symgo.PathResult{Kind: "unknown", Msg: "some schedules leave the narrow state range even after widening; they are not covered"})
 	}
 	if res.Violated != "" {
 		jr.ByKind["violation"]++
